@@ -13,7 +13,22 @@ import numpy as np
 
 ROOT = os.path.dirname(os.path.dirname(os.path.abspath(__file__)))
 # self-validation runs (scratch copies of the repository) must not overwrite evidence/replays of the unchanged tree
-OUT_ROOT = ROOT if not os.environ.get("VERIF_SELFVAL") else tempfile.mkdtemp(prefix="nessai-verif-selfval-out-", dir="/tmp")
+def _selfval_out_root():
+    # one directory per check invocation: created by the first process (the check itself), inherited by its workers through the environment, removed when
+    # the check process exits
+    d = os.environ.get("VERIF_SELFVAL_OUT")
+    if d and os.path.isdir(d):
+        return d
+    d = tempfile.mkdtemp(prefix="nessai-verif-selfval-out-", dir="/tmp")
+    os.environ["VERIF_SELFVAL_OUT"] = d
+    import atexit
+    import shutil
+
+    atexit.register(shutil.rmtree, d, True)
+    return d
+
+
+OUT_ROOT = ROOT if not os.environ.get("VERIF_SELFVAL") else _selfval_out_root()
 FINDINGS_FILE = os.path.join(ROOT, "known_findings.jsonl")
 EVIDENCE_SCHEMA = "/root/.vp/EVIDENCE.schema.json"
 
